@@ -121,13 +121,13 @@ Proof.
 Qed.
 
 Lemma match_attrs_complete : forall h pats st, sub st -> forallb (attr_local s h) pats = true ->
-  exists st', match_attrs pats h st = Ok st' /\ sub st' /\ below st' = below st /\ all_nb st' = all_nb st.
+  exists st', match_attrs fl pats h st = Ok st' /\ sub st' /\ below st' = below st /\ all_nb st' = all_nb st.
 Proof.
   induction pats as [| [name ap] t IH]; intros st S F; simpl in *.
   - exists st. split; [reflexivity | split; [exact S | split; reflexivity]].
   - apply andb_true_iff in F as [F1 F2]. unfold attr_local in F1; cbn [fst snd] in F1.
     destruct (assoc String.eqb name (h_attrs h)) as [a|]; destruct ap as [c | [y|] none_ok]; try discriminate.
-    + destruct (attr_const_matches c a) as [[|]|]; try discriminate. auto.
+    + unfold attr_const_eval. destruct (attr_const_matches c a) as [[|]|]; try discriminate. auto.
     + destruct (bind_complete _ _ _ S F1) as (st1 & B & S1 & B1 & N1). simpl. rewrite B. simpl.
       destruct (IH _ S1 F2) as (st' & M & S' & B' & N'). exists st'; split; [exact M | split; [exact S' | split; congruence]].
     + simpl. auto.
@@ -297,7 +297,8 @@ Theorem run_complete_orfree : forall fl p g root r s,
   instanceb g p [root] s = true ->
   exists m, run fl p g root false = Ok m /\
     (forall q n, assoc Nat.eqb q (m_nb m) = Some n -> node_is s q n = true) /\
-    (forall x b, assoc String.eqb x (m_b m) = Some b -> var_is s x b = true \/ (b = BNone /\ In x (gp_inputs p))).
+    (forall x b, assoc String.eqb x (m_b m) = Some b -> var_is s x b = true \/ (b = BNone /\ In x (gp_inputs p))) /\
+    (forall k v, assoc vkey_eqb k (m_vb m) = Some v -> key_is s k v = true).
 Proof.
   intros fl p g root r s Hrep Hor Htp Hroots Hreach Hinst.
   unfold instanceb in Hinst. rewrite Hroots in Hinst. apply andb_true_iff in Hinst as [Hr Hok].
@@ -348,11 +349,13 @@ Proof.
     change (match_roots fl g p [r] [root] init_stack)
       with (rbind (match_node fl g (gp_nodes p) (fuel_for p) r root init_stack) (fun st1 => Ok st1)).
     rewrite M. cbn [rbind]. unfold finish. rewrite B, Hbs. cbn [andb]. reflexivity.
-  - cbn [m_nb m_b]. destruct S as (S1 & S2 & S3). split.
+  - cbn [m_nb m_b m_vb]. destruct S as (S1 & S2 & S3). split; [|split].
     + intros q n A. apply S3. unfold lookup_nb. replace (all_nb st) with (s_n (sig_of st)) by reflexivity.
       rewrite Flat. exact A.
     + intros x b A. apply fill_inputs_inv in A as [A|A]; auto. left. apply S1.
       unfold lookup_b. replace (all_b st) with (s_v (sig_of st)) by reflexivity. rewrite Flat. exact A.
+    + intros k v A. apply S2. unfold lookup_vb. replace (all_vb st) with (s_k (sig_of st)) by reflexivity.
+      rewrite Flat. exact A.
 Qed.
 
 (* two instances at the same root agree on everything the matcher binds *)
